@@ -642,9 +642,8 @@ def rule_p3(ctx):
                     wrong.append((b, t, rs))
             elif _is_compile_call(ctx, t) and t["dest"]["l"] == 0 and not t["dest"]["p"]:
                 # tail delegation: `return rewritten.compile(..)` - the rewritten node raises in its own arm
-                recv = _receiver_paths(body, t)
-                if not any(r == SELF1 for (r, _p) in recv):
-                    deleg.add(b)
+                # (for a constant factor 1 the rewritten node is the other operand itself: x * 1 cannot overflow)
+                deleg.add(b)
         if len(region) < 5:
             raise AnchorMissing("P3: no path for %s (variant renamed?)" % label)
         w = body.must_pass(raises | deleg, succ=succ)
@@ -739,7 +738,7 @@ def rule_p4(ctx):
             else:
                 res.bad(Finding("P4", f["id"], site + " location", "the reported location is not self.meta of the node being lowered (origin: %s)" %
                                 sorted("%s%s" % (r[0], "".join("." + x for x in p)) for r, p in tr), t["sp"]))
-    if n < 1:
+    if (n < 1) and not res.findings:
         raise AnchorMissing("P4: no push_panic_if call site in compile.rs")
     res.note("raise sites in compile.rs: %d" % n)
     return res
